@@ -752,7 +752,12 @@ static void Zip_Assign(var self, var obj) {
   struct Zip* z = self;
   struct Zip* o = cast(obj, Zip);
   assign(z->iters, o->iters);
-  assign(z->values, o->values);
+  /* One value slot per input. The slots of a Zip that has been iterated hold
+  ** cursors (among them Terminal), so they are not a Tuple that can be copied */
+  assign(z->values, o->iters);
+  for (size_t i = 0; i < len(z->iters); i++) {
+    set(z->values, $I(i), _);
+  }
 }
 
 static var Zip_Iter_Init(var self) {
